@@ -22,12 +22,12 @@ DESCRIPTIONS = {
  "C03|ts-route-vs-openapi|verbonly|base=none": "method with a verb but no path: OpenAPI documents \"/\", TS server and clients use /<lowerCamelMethod>",
  "C03|matrix|go>go|not-routed|noconfig|": "method without (sebuf.http.config): Go client request is not routed by the Go server (default-path rules differ)",
  "C03|matrix|go>go|not-routed|verbonly|": "method with a verb but no path: Go client request is not routed by the Go server (default-path rules differ)",
- "C09|dispatched-without-required-header|ts|invalid:string/date": "TS server accepts an impossible calendar date (2024-13-01) for a required header of format date (shape-only regex)",
- "C09|dispatched-without-required-header|ts|invalid:unset/date": "TS server accepts an impossible calendar date (2024-13-01) for a required header of format date (shape-only regex)",
- "C09|dispatched-without-required-header|ts|invalid:string/time": "TS server accepts an impossible time (25:00:00) for a required header of format time (shape-only regex)",
- "C09|dispatched-without-required-header|ts|invalid:unset/time": "TS server accepts an impossible time (25:00:00) for a required header of format time (shape-only regex)",
- "C09|dispatched-without-required-header|ts|invalid:string/date-time": "TS server accepts a malformed date-time for a required header of format date-time",
- "C09|dispatched-without-required-header|ts|invalid:unset/date-time": "TS server accepts a malformed date-time for a required header of format date-time",
+ "C09|dispatched-without-required-header|ts|invalid:date": "TS server accepts an impossible calendar date (2024-13-01) for a required header of format date (shape-only check)",
+ "C09|dispatched-without-required-header|ts|invalid:time": "TS server accepts an impossible time (25:00:00) for a required header of format time (shape-only check)",
+ "C09|dispatched-without-required-header|ts|invalid:date-time": "TS server accepts a malformed date-time for a required header of format date-time",
+ "C09|offending-header-not-reported|ts|invalid:date": "TS server does not report a required header whose date value is impossible (2024-13-01) when another header is also violated",
+ "C09|offending-header-not-reported|ts|invalid:time": "TS server does not report a required header whose time value is impossible (25:00:00) when another header is also violated",
+ "C09|offending-header-not-reported|ts|invalid:date-time": "TS server does not report a required header whose date-time value is malformed when another header is also violated",
  "C09|dispatched-without-required-header|ts|empty": "TS server dispatches although a required header is present but empty",
  "C09|duplicate-violation|ts|override": "TS server validates a header twice when a method re-declares a service-level header (name differing in case): one missing header yields two violations",
  "C09|offending-header-not-reported|ts|empty": "TS server does not report a required header that is present but empty (Go server treats empty as missing)",
